@@ -194,3 +194,33 @@ h!(q_real_history_union2, unwrap_real_history::<U2<Dt>>());
 h!(r0_real_history_raw, unwrap_real_history::<Raw<Dt>>());
 h!(r1_real_history_union1, unwrap_real_history::<U1<Dt>>());
 h!(q_real_history_swap, unwrap_real_history::<Swp<Dt>>());
+
+// ---- a zero-sized value that owns something is handed out undestroyed too
+static mut ZU_DROPS: usize = 0;
+struct ZU;
+impl Drop for ZU {
+    fn drop(&mut self) {
+        unsafe { ZU_DROPS += 1 };
+    }
+}
+impl Clone for ZU {
+    fn clone(&self) -> ZU {
+        ZU
+    }
+}
+h!(q_unwrap_zst_owned, {
+    let z = match Arc::try_unwrap(Arc::new(ZU)) {
+        Ok(z) => z,
+        Err(_) => panic!("a sole owner was refused"),
+    };
+    assert!(unsafe { ZU_DROPS } == 0 && n_live() == 0, "zero-sized value destroyed although it was handed out (or its block kept)");
+    drop(z);
+    assert!(unsafe { ZU_DROPS } == 1);
+    let z = UniqueArc::into_inner(UniqueArc::new(ZU));
+    assert!(unsafe { ZU_DROPS } == 1 && n_live() == 0);
+    drop(z);
+    let z = Arc::unwrap_or_clone(Arc::new(ZU));
+    assert!(unsafe { ZU_DROPS } == 2 && n_live() == 0);
+    drop(z);
+    assert!(unsafe { ZU_DROPS } == 3);
+});
